@@ -22,6 +22,9 @@ CHECKS = {
  "C06": ("exploration", "reference-model monitoring of the wallet store after syncing through generated reorg histories",
          "A SingleAddressWallet over the in-repo reference store follows wallet-heavy generated histories (miner, payee, spender, v1/v2 contract party, siafund owner/claimant, Foundation address) in chunks that lag and end on reverts; whenever it is at the tip its outputs must equal the pure ledger's outputs paying the address (value, maturity, leaf index, proof verifying at the tip), no event may stem from a reverted block, sum(inflow)-sum(outflow) and Balance confirmed+immature must equal the sum of outputs; finally its event multiset must equal that of a wallet that followed the best chain linearly.",
          "Only the in-repo reference store is exercised; the harness tracks the index the stream left the wallet at (the reference store records the reverted index).", "§3 C06"),
+ "C07": ("exploration", "recorded-history checking (porcupine reservation model) + reference-model oracles at barriers + race detector",
+         "2-16 goroutines issue PRNG Fund/FundV2/Redistribute/SplitUTXO/Release/sign/submit/Balance/SpendableOutputs calls against a wallet while blocks are mined, with barriers, restarts and an option sweep (36 settings x 3 regimes); every call is logged at the caller boundary; oracles: eligibility of every selected input, disjointness (porcupine per-output reservation model + direct check at barriers), conservation, pool acceptance of the signed result, agreement of Balance/SpendableOutputs/selection at barriers and after restarts (fund exactly spendable succeeds, +1H fails), reservation expiry with explicit sleeps; -race is deciding.",
+         "Only the reference EphemeralWalletStore; no reorgs in these histories; acceptance is undecided when a block overlaps the selecting/submitting call.", "§3 C07"),
  "C13": ("exploration", "reference-model monitoring of proof rebasing against pure ledgers along path(from->to)",
          "For PRNG pairs of applied indices on the same or different forks of generated trees and v2 sets valid at 'from' (ephemeral chains, siafund spends, contract formation/revision/renewal/storage proof/expiration), the result of UpdateV2TransactionSet is compared with the expectation computed from the pure ledgers: input minus confirmed in order, each parent element equal to the ledger's leaf index and proof at 'to', ephemeral inputs that became confirmed carry the confirmed element, errors (never panics) for corrupted proofs/leaf indices/unknown bases and for elements that never existed on the target chain; V2TransactionSet ordering/basis/acceptance; caller memory; paths of 1..160 blocks.",
          "Only indices that were the best tip at some moment are used as from/to (others carry header-only states); an element re-created with the same id on the other fork may be refused (no verdict); spent-at-target gives no verdict.", "§3 C13"),
